@@ -3,7 +3,7 @@ C14 — obligations that tie the hand-written model `Model/Health.lean` to table
 (`Gen/Health.lean`, extractor harness/extract/health.py). A source change in any of these places makes one of these
 theorems fail to check.
 -/
-import PrimaiteModel.Model.HealthDyn
+import PrimaiteModel.Model.HealthObs
 import PrimaiteModel.Gen.Health
 namespace Primaite.Health
 
@@ -159,29 +159,37 @@ theorem C14_gen_fresh_items :
 
 /-! ### what the agent is shown for a folder (round 7): `FolderObservation.observe`, the `pre_timestep` path, the order of a game step -/
 
-set_option maxRecDepth 16000 in
-/-- `FolderObservation.observe` as a guarded-effect table = `FolderObs.see`: not in the state dictionary → the default observation,
-cache untouched; `requires_scan`, flag clear and the cache read from this very folder (or never filled) → the cached value;
-`requires_scan` otherwise → `visible_status`; the folder's uuid is remembered with the cache; no
-`requires_scan` → `health_status`; the value reported is the value cached. (Rows about the files of the folder are not C14's.) -/
+/-- the state-dictionary entries the observer reads are the folder's actual / visible health, its refresh flag, and the LIVE folders
+by name -/
 theorem C14_gen_folder_observe :
-    Gen.Health.folderObserve.filter (fun r => r.1 = "return" || r.1 = "set health_status" || r.1 = "set self.cached_obs" ||
-        r.1 = "set obs['health_status']" || r.1 = "set same_folder" || r.1 = "set self._cached_uuid") =
-      [("return", "folder_state is NOT_PRESENT_IN_STATE", "self.default_observation"),
-       ("return", "not (folder_state is NOT_PRESENT_IN_STATE)", "obs"),
-       ("set health_status", "(not folder_state['scanned_this_step'] and same_folder) && not (folder_state is NOT_PRESENT_IN_STATE) && self.file_system_requires_scan", "self.cached_obs['health_status']"),
-       ("set health_status", "not (folder_state is NOT_PRESENT_IN_STATE) && not (not folder_state['scanned_this_step'] and same_folder) && self.file_system_requires_scan", "folder_state['visible_status']"),
-       ("set health_status", "not (folder_state is NOT_PRESENT_IN_STATE) && not (self.file_system_requires_scan)", "folder_state['health_status']"),
-       ("set obs['health_status']", "not (folder_state is NOT_PRESENT_IN_STATE)", "health_status"),
-       ("set same_folder", "not (folder_state is NOT_PRESENT_IN_STATE) && self.file_system_requires_scan", "self._cached_uuid is None or folder_state.get('uuid') == self._cached_uuid"),
-       ("set self._cached_uuid", "not (folder_state is NOT_PRESENT_IN_STATE)", "folder_state.get('uuid')"),
-       ("set self.cached_obs", "not (folder_state is NOT_PRESENT_IN_STATE)", "obs")] ∧
     Gen.Health.stateKeys =
       [("FileSystemItemABC.describe_state", "health_status", "self.health_status.value"),
        ("FileSystemItemABC.describe_state", "visible_status", "self.visible_health_status.value"),
        ("Folder.describe_state", "scanned_this_step", "self._scanned_this_step"),
        ("FileSystem.describe_state", "folders", "{folder.name: folder.describe_state() for folder in self.folders.values()}")] := by
   decide
+
+/-- the MODEL's observer evaluated on the same 32 valuations, with probe values that tell the three sources apart (cached = CORRUPT,
+visible = GOOD, actual = COMPROMISED; the folder has identity 0, a cache read from "another folder" identity 1) -/
+def modelObserveTruth : List (List Bool × String × String × Bool × String) :=
+  let bits : List Bool := [false, true]
+  bits.flatMap fun absent => bits.flatMap fun rq => bits.flatMap fun scanned => bits.flatMap fun idNone => bits.map fun idSame =>
+    let o : FolderObs := { name := "f", requiresScan := rq, cached := .corrupt,
+                           cachedId := if idNone then none else if idSame then some 0 else some 1 }
+    let G : Folder := { name := "f", deleted := false, actual := .compromised, visible := .good, scanDur := 1, scanCd := 0,
+                        restoreDur := 1, restoreCd := 0, files := [], scanned := scanned }
+    let r : FsH × FolderObs := o.see (if absent then none else some (0, G))
+    let src : String := match r.1 with
+      | FsH.corrupt => "self.cached_obs['health_status']" | FsH.good => "folder_state['visible_status']"
+      | FsH.compromised => "folder_state['health_status']" | _ => "-"
+    if absent then ([absent, rq, scanned, idNone, idSame], "self.default_observation", "-", false, "-")
+    else ([absent, rq, scanned, idNone, idSame], "obs", src, decide (r.2.cached = r.1),
+          if r.2.cachedId = some 0 then "folder_state.get('uuid')" else "-")
+
+set_option maxRecDepth 16000 in
+/-- SEMANTIC tie of the observer: `FolderObservation.observe`, executed symbolically by the extractor for every valuation of its five
+Boolean inputs, does what `FolderObs.see` does — whatever the shape of the control flow in the source. -/
+theorem C14_gen_folder_observe_truth : Gen.Health.folderObserveTruth = modelObserveTruth := by decide
 
 /-- `pre_timestep` reaches every LIVE folder of every node unconditionally (whatever the node's power state) and no deleted folder
 (= `Node.pre`); a game step is `pre_timestep; requests; apply_timestep; observe` (= `Node.gameStep`, then `FolderObs.observe`) -/
